@@ -128,6 +128,7 @@ class Resolver:
                 if t is not None:
                     out[a] = t
         meths = sorted(cls.methods.values(), key=lambda f: (f.name != "__init__", f.node.lineno))
+        weak = set()
         for f in meths:
             for n in walk_shallow(f.node):
                 tgt = val = ann = None
@@ -136,15 +137,20 @@ class Resolver:
                 elif isinstance(n, ast.AnnAssign):
                     tgt, val, ann = n.target, n.value, n.annotation
                 if isinstance(tgt, ast.Attribute) and isinstance(tgt.value, ast.Name) and tgt.value.id == "self":
-                    if tgt.attr in out:
+                    if tgt.attr in out and tgt.attr not in weak:
                         continue
                     t = None
                     if ann is not None:
                         t = self.ty_from_ann(cls.module, cls, ann)
+                    # direct evidence (annotation, literal, constructor call) beats a type inferred through a variable,
+                    # so the result does not depend on which of two branches is written first
+                    strong = t is not None or isinstance(val, (ast.Call, ast.Set, ast.SetComp, ast.Dict, ast.DictComp, ast.List,
+                                                              ast.ListComp, ast.Tuple, ast.Constant, ast.JoinedStr))
                     if t is None and val is not None:
                         t = self.infer(f, val)
-                    if t is not None:
+                    if t is not None and (tgt.attr not in out or strong):
                         out[tgt.attr] = t
+                        (weak.discard if strong else weak.add)(tgt.attr)
         for name, f in cls.methods.items():
             if f.is_property() and name not in out:
                 t = self.ty_from_ann(cls.module, cls, f.node.returns)
@@ -346,14 +352,16 @@ class Resolver:
                         0 <= e.slice.value < len(b.args):
                     return b.args[e.slice.value]
             return None
-        if isinstance(e, ast.IfExp):
-            return self.infer(f, e.body, depth + 1) or self.infer(f, e.orelse, depth + 1)
-        if isinstance(e, ast.BoolOp):
-            for v in e.values:
-                t = self.infer(f, v, depth + 1)
-                if t is not None:
-                    return t
-            return None
+        if isinstance(e, (ast.IfExp, ast.BoolOp)):
+            # one type for `a if c else b` / `a or b`, independent of the order the alternatives are written in:
+            # a class of the package, then an external class, then anything else, a module object last
+            arms = [e.body, e.orelse] if isinstance(e, ast.IfExp) else list(e.values)
+            ts = [t for t in (self.infer(f, v, depth + 1) for v in arms) if t is not None]
+
+            def rank(t):
+                nm = t.name or ""
+                return (0 if t.cls is not None else 1 if nm.startswith("ext:") else 3 if nm.startswith("extmod:") else 2, repr(t))
+            return min(ts, key=rank) if ts else None
         if isinstance(e, ast.NamedExpr):
             return self.infer(f, e.value, depth + 1)
         return self._literal_ty(e)
